@@ -421,11 +421,13 @@ pub struct Knobs {
     /// re-executed concurrently by real, unscheduled threads and compared with their quiescent
     /// results. A scout for races inside added code; NOT deterministic, see DESIGN.md §2.8
     pub stress: u64,
+    /// scenario tag (informational): 0 random mix, 1 contention palette, 2 sweep, 3 C07 battery
+    pub scn: u64,
 }
 
 impl Default for Knobs {
     fn default() -> Self {
-        Knobs { slots: 0, preempt: 0, heap: 0, iso: 0, repeat: 1, stress: 0 }
+        Knobs { slots: 0, preempt: 0, heap: 0, iso: 0, repeat: 1, stress: 0, scn: 0 }
     }
 }
 
@@ -453,7 +455,7 @@ impl Trace {
         let _ = writeln!(s, "profile {}", self.profile);
         for r in &self.runs {
             let k = &r.knobs;
-            let _ = writeln!(s, "run seed={} slots={} preempt={} heap={} iso={} repeat={} stress={}", r.seed, k.slots, k.preempt, k.heap, k.iso, k.repeat, k.stress);
+            let _ = writeln!(s, "run seed={} slots={} preempt={} heap={} iso={} repeat={} stress={} scn={}", r.seed, k.slots, k.preempt, k.heap, k.iso, k.repeat, k.stress, k.scn);
             s.push_str("pre\n");
             for op in &r.pre {
                 s.push_str(&op.to_line());
@@ -505,6 +507,7 @@ impl Trace {
                             "iso" => r.knobs.iso = v,
                             "repeat" => r.knobs.repeat = v,
                             "stress" => r.knobs.stress = v,
+                            "scn" => r.knobs.scn = v,
                             _ => return Err(format!("unknown run key {k}")),
                         }
                     }
@@ -1028,7 +1031,7 @@ fn generate_battery(seed: u64, r: &mut Rng) -> RunTrace {
             threads[ty as usize].push(enc);
         }
     }
-    RunTrace { seed, knobs: Knobs { slots, preempt: 0, heap: 0, iso: 0, repeat: 0, stress: 0 }, pre: Vec::new(), threads, sched: Vec::new() }
+    RunTrace { seed, knobs: Knobs { slots, preempt: 0, heap: 0, iso: 0, repeat: 0, stress: 0, scn: 3 }, pre: Vec::new(), threads, sched: Vec::new() }
 }
 
 /// Generates the explicit programme of one run from its seed.
@@ -1069,6 +1072,7 @@ pub fn generate(seed: u64, prof: Profile, miri: bool) -> RunTrace {
         iso: if miri { 0 } else { u64::from(r.pct(35)) * r.range(1, 2) },
         repeat: if miri { 1 } else { u64::from(r.pct(50)) },
         stress: 0,
+        scn: 0,
     };
     // a third of the native runs and two thirds of the Miri workloads are contention scenarios
     let contention = r.pct(if miri { 66 } else { 33 });
@@ -1082,6 +1086,7 @@ pub fn generate(seed: u64, prof: Profile, miri: bool) -> RunTrace {
         Vec::new()
     };
     let knobs = if contention && !miri && r.pct(40) { Knobs { stress: r.range(20, 60), ..knobs } } else { knobs };
+    let knobs = Knobs { scn: if contention { 1 } else if sweep { 2 } else { 0 }, ..knobs };
     let (nthreads, nops, knobs) = if sweep {
         // few threads, long programmes, no immediate repetition (it would turn every miss into a hit)
         (r.range(1, 2), r.range(30, 60), Knobs { repeat: 0, ..knobs })
